@@ -230,9 +230,74 @@ def cases(draw):
           'extra': [draw(st.integers(0, 3)), draw(st.integers(0, 3)), draw(st.sampled_from(['raise', 'hang'])), draw(st.sampled_from(['ctor', 'td']))]}
 
 
+def check_unkillable(case):
+  """A tearDown that blocks in an uninterruptible call must be abandoned after plug_teardown_timeout_s (virtual time).
+
+  case = {'plugs': n, 'hang': [indices], 'raise_in_phase': bool, 'plan': {k: choice}}
+  """
+  from vf import ohtf, vmode  # pylint: disable=g-import-not-at-top
+  from vf import vsched as V  # pylint: disable=g-import-not-at-top
+  r = CaseResult()
+  vmode.setup()
+  plan = {int(k): v for k, v in (case.get('plan') or {}).items()}
+
+  def fn(s):
+    htf = ohtf.reset_case(cancel_timeout_s=0.5, plug_teardown_timeout_s=2.0)
+    vmode.quiet_logging()
+    log = []
+    classes = []
+    for i in range(case['plugs']):
+      def td(self, i=i):
+        log.append(('td', i, s.now))
+        if i in case['hang']:
+          V.VEvent(s).wait()   # never set: an uninterruptible blocking call - a kill cannot be delivered
+          log.append(('td-returned', i))
+      classes.append(type('HPlug%d' % i, (htf.plugs.BasePlug,), {'tearDown': td}))
+
+    def body(test, **plugs):
+      log.append(('body', s.now))
+      if case.get('raise_in_phase'):
+        raise progs.ExcO('boom')
+
+    body.__name__ = 'uses_plugs'
+    ph = htf.plugs.plug(**{'p%d' % i: c for i, c in enumerate(classes)})(body)
+    test = htf.Test(ph)
+    got = []
+    test.add_output_callbacks(lambda rec: (got.append(rec), log.append(('cb', s.now))))
+    ret = test.execute()
+    return {'ret': ret, 'log': log, 'outcome': got[0].outcome.name if got else None, 'end': s.now}
+
+  s = V.Scheduler(plan=plan, time_limit=1e5, max_steps=100000)
+  res, exc = s.run(lambda: fn(s), watchdog_s=20.0)
+  r.nontrivial = case['plugs'] >= 2 and bool(case['hang'])
+  r.classes = ['unkillable-teardown', 'plugs:%d' % case['plugs'], 'hangs:%d' % len(case['hang'])]
+  if s.failure is not None:
+    if s.failure[0] in ('deadlock', 'steplimit'):
+      r.bad('C08/hang-on-abandoned-teardown', 'execute() never returned: %s case=%r' % (s.failure[1][:400], case))
+      return r
+    raise RuntimeError('scheduler failure %r' % (s.failure,))
+  if exc is not None:
+    r.bad('C08/unkillable/raised/%s' % type(exc).__name__, repr(exc))
+    return r
+  tds = [e[1] for e in res['log'] if e[0] == 'td']
+  if sorted(tds) != list(range(case['plugs'])):
+    r.bad('C08/teardown-%s' % ('missing' if len(tds) < case['plugs'] else 'repeated'), 'tearDown calls %r with hanging %r; case=%r' % (tds, case['hang'], case))
+  want = 'ERROR' if case.get('raise_in_phase') else 'PASS'
+  if res['outcome'] != want:
+    r.bad('C08/teardown-fault-changes-outcome', 'outcome %s, expected %s; case=%r' % (res['outcome'], want, case))
+  if not any(e[0] == 'cb' for e in res['log']):
+    r.bad('C08/no-callback-after-hang', repr(res['log']))
+  bound = 2.0 * len(case['hang']) + 5.0
+  if res['end'] > bound:
+    r.bad('C08/abandon-too-late', 'execute() returned at virtual %.1fs, bound %.1fs' % (res['end'], bound))
+  return r
+
+
 def plan(tier, seed):
   n = 150 if tier == 'quick' else 2500
-  return [{'kind': 'hyp', 'name': 'hyp%d' % i, 'hseed': seed * 1000 + i, 'n': n} for i in range(16)]
+  jobs = [{'kind': 'hyp', 'name': 'hyp%d' % i, 'hseed': seed * 1000 + i, 'n': n} for i in range(16)]
+  jobs.append({'kind': 'unkillable', 'name': 'unkillable'})
+  return jobs
 
 
 def run_job(job, acct):
@@ -240,6 +305,19 @@ def run_job(job, acct):
   if job['kind'] == '_regress':
     from vf import runner  # pylint: disable=g-import-not-at-top
     runner.run_regress(sys.modules[__name__], job, acct)
+    return
+  if job['kind'] == 'unkillable':
+    import itertools  # pylint: disable=g-import-not-at-top
+    for n in (1, 2, 3):
+      for k in range(0, n + 1):
+        for hang in itertools.combinations(range(n), k):
+          for rip in (False, True):
+            case = {'unkillable': 1, 'plugs': n, 'hang': list(hang), 'raise_in_phase': rip}
+            r = check_unkillable(case)
+            acct.case(case, r.nontrivial, r.classes)
+            for sig, detail in r.violations:
+              (acct.known if sig in known else acct.violation)(sig, case, detail)
+    acct.exhaustive_parts.append('unkillable tearDown: all subsets of hanging plugs for 1-3 plugs x {phase passes, phase raises} (virtual time)')
     return
   counter = {'variants': 0}
 
@@ -253,4 +331,6 @@ def run_job(job, acct):
 
 
 def replay(case):
+  if 'unkillable' in case:
+    return check_unkillable(case).violations
   return check1(case).violations
